@@ -147,7 +147,7 @@ def check(case):
             for k in ["t", "n", "zz", "q", "a", "b", "c", "d", "e", "f"]:
                 env.call(c.get, k)
                 pre += 1
-        elif ftype == "down":
+        elif ftype in ("down", "moved"):
             for srv in env.servers:
                 srv.down = failure["what"]
         elif ftype == "dialect":
@@ -214,6 +214,18 @@ def check(case):
         for srv in env.servers:
             srv.down = None
             srv.dialect = set()
+        if ftype == "moved":
+            # the failed node is not coming back: its name now points at a replacement (holding the items) at another address,
+            # the old address stays dead - the client is usable again as soon as it looks the name up again
+            from vlib.mcserver import McServer
+            for j, (addr, srv) in enumerate(list(zip(env.addrs, env.servers))):
+                stub = McServer(env.clock)
+                stub.down = "refused"
+                old_addr = (addr[0], int(addr[1]))
+                new_addr = ("10.77.0.%d" % (j + 1), int(addr[1]))
+                env.net.servers[old_addr] = stub
+                env.net.servers[new_addr] = srv
+                env.net.resolve[addr[0]] = [(env.net.AF_INET, new_addr)]
         if ftype != "serde":
             again = None
             for attempt in range(4):
@@ -303,6 +315,8 @@ def sweep_cases(tier, seed):
             # special failures
             for what in ("refused", "timeout", "reset", "oserror"):
                 yield dict(base, failure={"type": "down", "what": what})
+            if not kind.startswith("aws") and not extra.get("add_at_runtime") and ci % 2 == 0:
+                yield dict(base, failure={"type": "moved", "what": ("refused", "timeout", "oserror")[ci % 3]})
             for how in ("raise", "badutf8"):
                 yield dict(base, failure={"type": "serde", "how": how})
             for dia in (["unasked"], ["cas-always"], ["reverse"], ["dedupe"], ["repeat-first"], ["value-trailing-blank"], ["unasked", "reverse"], ["hangup-after-error"]):
